@@ -44,3 +44,5 @@ func Implies(a, b bool) bool     { panic("zzverif: engine only") }
 func Ite(c bool, x, y byte) byte { panic("zzverif: engine only") }
 func StrEq(a, b string) bool     { panic("zzverif: engine only") }
 func BytesEq(a, b []byte) bool   { panic("zzverif: engine only") }
+
+func Cached(key string, f func() interface{}) interface{} { panic("zzverif: engine only") }
